@@ -302,3 +302,101 @@ def no_shared_mutable_defaults(ctx, rule):
                       f'`{p}={src(d)}` is one object for all calls and `{src(hit[0])[:60]}` keeps / changes / hands it out: every '
                       f'{f.cls.name if f.cls else "caller"} built without `{p}` shares it, so data recorded for one document appears in the others' if hit else '')
     ctx.count(f'{rule}.mutable_defaults', n)
+
+
+# --------------------------------------------------------------------------- round 6
+def check_copied_nodes_keep_stage(ctx, rule):
+    """A node built outside the importer (a copy of a tree, a concatenation) is given the STAGE of the node it stands for: the
+    measure index of the document is a list of stage numbers and is copied as it is.  A stage recomputed from the position in the
+    copy (`parent.stage + 1`) differs wherever a record hangs higher up in the tree (a global comment hangs from the root)."""
+    doc_mod = ctx.prog.module(N.DOCUMENT)
+    n = 0
+    for f in ctx.prog.all_functions():
+        if f.module is not doc_mod or isinstance(f.node, ast.Lambda) or f.name in ('add_node', '__init__'):
+            continue
+        for c in walk_local(f.node):
+            if isinstance(c, ast.Call) and isinstance(c.func, ast.Attribute) and c.func.attr == 'add_node' and c.args:
+                st = c.args[0]
+                n += 1
+                arith = isinstance(st, ast.BinOp) and any(isinstance(x, ast.Attribute) and x.attr == 'stage' for x in ast.walk(st))
+                ctx.check(not arith, rule, f'{f.module.relpath}:{c.lineno}', f.qualname, 'copied-node-stage-recomputed',
+                          f'`{src(c)[:60]}` takes the stage as it is given',
+                          f'`{src(st)}` recomputes the stage of a copied node from its parent in the copy: where a record hangs from a node '
+                          f'further up (a global comment hangs from the root) every later stage of the copy is shifted, while the measure '
+                          f'index copied with the document keeps the original stage numbers - ranges of the copy start and end at the wrong rows')
+    ctx.count(f'{rule}.add_node_calls_in_document_module', n)
+
+
+def no_identity_comparison_of_numbers(ctx, rule, qualnames):
+    """`a is b` between two numbers is an accident of the interpreter (small integers are cached up to 256): the range arithmetic
+    must compare values."""
+    for qn in qualnames:
+        f = ctx.prog.func(qn)
+        for c in walk_local(f.node):
+            if isinstance(c, ast.Compare) and any(isinstance(o, (ast.Is, ast.IsNot)) for o in c.ops):
+                sides = [c.left] + list(c.comparators)
+                if any(isinstance(x, ast.Constant) and (x.value is None or isinstance(x.value, bool) or x.value is Ellipsis) for x in sides):
+                    continue
+                numeric = [x for x in sides if 'measure' in src(x) or 'stage' in src(x) or (isinstance(x, ast.Call) and is_name_call(x, 'len'))
+                           or (isinstance(x, ast.Constant) and isinstance(x.value, int))]
+                if numeric:
+                    ctx.violation(rule, f'{f.module.relpath}:{c.lineno}', f.qualname, 'identity-comparison-of-numbers',
+                                  f'`{src(c)[:70]}` compares numbers by identity: true for equal small integers only (CPython caches -5..256), so a '
+                                  f'score with more measures takes the other branch')
+
+
+def is_name_call(node, name):
+    return isinstance(node, ast.Call) and isinstance(node.func, ast.Name) and node.func.id == name
+
+
+def no_memoised_mutable_results(ctx, rule, qualnames):
+    """A function that returns a mutable object (an AgnosticPitch, a token, a document) must not be memoised: every caller gets
+    the same object, and what one caller changes in it is what the next one receives."""
+    for qn in qualnames:
+        f = ctx.prog.func(qn)
+        decos = [src(d) for d in getattr(f.node, 'decorator_list', [])]
+        memo = [d for d in decos if d.split('(')[0].rpartition('.')[2] in ('lru_cache', 'cache', 'cached_property')]
+        ctx.check(not memo, rule, f.loc, f.qualname, 'memoised-mutable-result',
+                  f'{f.name} is not memoised',
+                  f'{f.name} is memoised (`@{memo[0]}`) and returns a mutable object: all callers share one result object, so a pitch that one '
+                  f'caller adjusts (its octave, its name) is handed changed to the next caller of the same transposition' if memo else '')
+
+
+def makedirs_guarded(ctx, rule, qualnames):
+    """`os.makedirs(os.path.dirname(p))` fails for a bare file name (dirname is ''): the directory part must be tested first."""
+    for qn in qualnames:
+        f = ctx.prog.func(qn)
+        parent = {}
+        for n_ in ast.walk(f.node):
+            for ch in ast.iter_child_nodes(n_):
+                parent[ch] = n_
+        for c in walk_local(f.node):
+            if isinstance(c, ast.Call) and src(c.func) in ('os.makedirs', 'makedirs') and c.args:
+                a0 = c.args[0]
+                dn = a0 if (isinstance(a0, ast.Call) and src(a0.func) in ('os.path.dirname', 'dirname')) else None
+                if dn is None and isinstance(a0, ast.Name):
+                    vals = [x.value for x in walk_local(f.node) if isinstance(x, ast.Assign) and any(is_name(t, a0.id) for t in x.targets)]
+                    if len(vals) == 1 and isinstance(vals[0], ast.Call) and src(vals[0].func) in ('os.path.dirname', 'dirname'):
+                        dn = a0
+                if dn is None:
+                    continue
+                guarded = False
+                cur = c
+                while cur in parent:
+                    up = parent[cur]
+                    if isinstance(up, ast.If) and cur in up.body:
+                        t_ = src(up.test)
+                        # the directory part itself is tested, or the ABSOLUTE directory is known to be missing (a bare file name
+                        # lives in the current directory, which exists)
+                        if src(dn) in t_ or (('exists(' in t_ or 'isdir(' in t_) and ('absolute()' in t_ or 'abspath(' in t_ or 'resolve()' in t_)
+                                            and t_.lstrip().startswith('not')):
+                            guarded = True
+                    cur = up
+                ctx.check(guarded, rule, f'{f.module.relpath}:{c.lineno}', f.qualname, 'makedirs-of-empty-dirname',
+                          f'`{src(c)[:60]}` runs only when the path has a directory part',
+                          f'`{src(c)[:70]}` also runs for a bare file name, whose directory part is the empty string: os.makedirs(\'\') raises, so a '
+                          f'conversion into the current directory writes nothing')
+
+
+def is_name(node, name):
+    return isinstance(node, ast.Name) and node.id == name
